@@ -74,9 +74,13 @@ StepsOf(shs) == LET RECURSIVE S(_)
 \* target scripts: all OK / transport failure at arrival k / status 418 at arrival k
 Script(kind, at) == [kind |-> kind, at |-> at]
 \* (quick: failure positions 1..5 only)
-ScriptsFor(steps) == {Script("ok", 0)} \cup {Script(kd, k) : kd \in {"transport", "status"}, k \in 1..(steps + 1)}
-ScriptsLvl(steps, lvl) == IF lvl = 0 /\ steps > 4 THEN ScriptsFor(4) ELSE ScriptsFor(steps)
-ScriptCode(sc) == IF sc.kind = "ok" THEN 0 ELSE (IF sc.kind = "transport" THEN 0 ELSE 20) + sc.at
+ScriptsFor(steps) == {Script("ok", 0)} \cup {Script(kd, k) : kd \in {"transport", "status", "trunc"}, k \in 1..(steps + 1)}
+\* quick: failure positions 1..5, truncated bodies at positions 1..2
+ScriptsLvl(steps, lvl) == IF lvl = 0
+                          THEN {sc \in ScriptsFor(IF steps > 4 THEN 4 ELSE steps) : sc.kind = "trunc" => sc.at <= 2}
+                          ELSE ScriptsFor(steps)
+ScriptCode(sc) == IF sc.kind = "ok" THEN 0
+                  ELSE (CASE sc.kind = "transport" -> 0 [] sc.kind = "status" -> 13 [] sc.kind = "trunc" -> 26) + sc.at
 
 \* lvl 0 (quick): all shapes for one listed request, 4 / 2 representative shapes for lists of 2 / 3
 \* lvl 1 (thorough): all shapes for lists of 1 and 2, multiplicities and sleeps separately for lists of 3
